@@ -81,7 +81,13 @@ bool Interp::exec_coll(Interp &I, const Stmt &s)
             I.env[s.dst] = PortVal{out.template as<S_DL>().erased(), PT::Other, "dl"};
             return true;
         }
-        if (a.size() == 1) out = wire<stdlib::map_>(w, f, Port<S_TSD>{w, d.ref});
+        if (a.size() == 1 && s.kw.count("keys"))
+        {
+            // keys=<tss port>: an EXPLICIT key set drives the children's lifetime, the dictionary only feeds elements
+            PortVal ks = I.get(s.kws("keys"));
+            out = wire<stdlib::map_>(w, f, Port<S_TSD>{w, d.ref}, arg<"__keys__">(Port<S_TSS>{w, ks.ref}));
+        }
+        else if (a.size() == 1) out = wire<stdlib::map_>(w, f, Port<S_TSD>{w, d.ref});
         else if (a.size() == 2 && I.get(a.at(1)).shape == "tsd" && s.kwi("passthrough", 0))
         {
             // the second dictionary is handed to every instance as a whole (pass_through); the instances return dictionaries
